@@ -73,3 +73,41 @@ func init() {
 		return nil
 	})
 }
+
+// oops errors print a stack trace captured with runtime.Callers, which the
+// interpreter does not model (Callers returns 0 frames). Their text becomes
+// "<cause>\n\n<reason>\n<reason>..." (innermost reason first), stack-free.
+func init() {
+	intrinsics["(*github.com/samsarahq/go/oops.oopsError).Error"] = func(st *State, c *frame, fn *ssa.Function, a []Value) Value {
+		p, _ := a[0].(*Value)
+		if p == nil {
+			panic(goPanic{mkRuntimeError("invalid memory address or nil pointer dereference")})
+		}
+		t := fn.Signature.Recv().Type().(*types.Pointer).Elem()
+		fld := func(s Struct, name string) Value {
+			_, i, _, ok := fieldByName(t, name)
+			if !ok {
+				panic(unsupported("oopsError." + name))
+			}
+			return s[i]
+		}
+		s := (*p).(Struct)
+		text := ""
+		if cause, ok := fld(s, "cause").(Iface); ok && cause.T != nil {
+			text = st.errorString(c, cause)
+		}
+		text += "\n\n"
+		var reasons []string
+		for cur := p; cur != nil; {
+			cs := (*cur).(Struct)
+			if r := st.concStrV(fld(cs, "reason")); r != "" {
+				reasons = append(reasons, r)
+			}
+			cur, _ = fld(cs, "previous").(*Value)
+		}
+		for _, r := range reasons {
+			text += r + "\n"
+		}
+		return text
+	}
+}
